@@ -53,23 +53,33 @@ func c20Gen(seed int64, idx int, tier string) c20Spec {
 		sp.N, sp.Casc = 4, true
 	case idx < nd+tierN(tier, 16, 200)+tierN(tier, 24, 400):
 		sp.Family = "switch-wreck"
-	default:
+	case idx < nd+tierN(tier, 16, 200)+tierN(tier, 24, 400)+tierN(tier, 24, 200):
 		sp.Family = "first-use"
+	default:
+		sp.Family = "loops"
+		sp.Mutation = c20Loops[idx%len(c20Loops)]
+		if sp.N < 3 {
+			sp.N = 3
+		}
 	}
 	return sp
 }
 
+// c20Loops: situations in which every loop of ONE process is in a non-trivial branch at the same time (the process
+// holds the manager lock while its own host is marked for recovery); they run under the race detector.
+var c20Loops = []string{"manager_on_marked_master", "manager_on_marked_replica_remarked", "manager_host_failed_over_and_back", "manager_on_marked_master_stuck"}
+
 func c20Units(tier string) int {
-	return len(c20Mutations)*2 + tierN(tier, 16, 200) + tierN(tier, 24, 400) + tierN(tier, 24, 200)
+	return len(c20Mutations)*2 + tierN(tier, 16, 200) + tierN(tier, 24, 400) + tierN(tier, 24, 200) + tierN(tier, 24, 160)
 }
 
 // c20RaceUnits lists the units that run in the -race binary.
 func c20RaceUnits(tier string) []int {
 	var out []int
 	n := c20Units(tier)
-	first := n - tierN(tier, 24, 200)
+	first := n - tierN(tier, 24, 200) - tierN(tier, 24, 160)
 	for i := first; i < n; i++ {
-		out = append(out, i) // first-use scenarios
+		out = append(out, i) // first-use and loops scenarios
 	}
 	for i := 0; i < first; i += tierN(tier, 6, 9) {
 		out = append(out, i) // a share of everything else
@@ -151,10 +161,26 @@ func c20Run(u *Unit) {
 			c.ReplicationRepairAggressiveMode = u.Idx%2 == 0
 			c.ExcludeUsers = []string{"admin", "monitor"}
 		}, ResetupTool: sp.Family == "soak"}
+	if sp.Family == "loops" {
+		inner := opts.Cfg
+		opts.Cfg = func(h string, c *config.Config) {
+			inner(h, c)
+			// many coinciding ticks of the loops
+			c.TickInterval, c.RecoveryCheckInterval, c.HealthCheckInterval = time.Second, time.Second, time.Second
+		}
+		opts.FirstDaemon = hosts[0]
+		if sp.Mutation == "manager_on_marked_replica_remarked" {
+			opts.FirstDaemon = hosts[1]
+		}
+	}
 	name := fmt.Sprintf("c20-%d-%s-%s-%s", u.Idx, sp.Family, sp.Mutation, sp.State)
 	u.Scenario(name, sp, opts, func(sc *Scen) {
 		s := sc.S
 		g := &growth{}
+		// replies with a seeded jitter: the loops of one process meet in varying pairings
+		s.W.Lock()
+		s.W.Jitter = 2 + u.Idx%4
+		s.W.Unlock()
 		switch sp.Family {
 		case "first-use":
 			// servers become reachable just before coinciding ticks of the loops, version query delayed:
@@ -221,6 +247,49 @@ func c20Run(u *Unit) {
 			g.judge(sc, "random fault soak")
 			sc.Cover("soak")
 			sc.Coverf("soak|mgrsw=%v|w=%d|seed=%d", sp.MgrSw, sp.W, u.Idx)
+		case "loops":
+			s.Start()
+			time.Sleep(22 * time.Second)
+			mgr := ""
+			if in := s.InstByName(lockHolder(s)); in != nil {
+				mgr = in.Host
+			}
+			if mgr != opts.FirstDaemon {
+				sc.Inconclusive("the intended daemon did not get the manager lock: " + mgr)
+				return
+			}
+			master := hosts[0]
+			put := func(p, v string) { s.ZK.Put("operator", NS+"/"+p, v) }
+			switch sp.Mutation {
+			case "manager_on_marked_master":
+				put("recovery/"+master, `null`)
+				time.Sleep(150 * time.Second)
+			case "manager_on_marked_master_stuck":
+				put("recovery/"+master, `null`)
+				for _, h := range hosts[1:] {
+					s.W.Manual(h, "stop io thread", func(x *world.Server) { x.IORun = false })
+				}
+				time.Sleep(150 * time.Second)
+			case "manager_on_marked_replica_remarked":
+				// the mark is cleared by the host itself as soon as it finds itself clean; the operator keeps re-marking
+				for i := 0; i < 20; i++ {
+					put("recovery/"+hosts[1], `null`)
+					time.Sleep(time.Duration(6000+s.Rng.Intn(3000)) * time.Millisecond)
+				}
+			case "manager_host_failed_over_and_back":
+				// mysqld of the manager's host (the master) dies, the manager fails over and marks its own host,
+				// mysqld comes back as a stale master and is repaired and recovered while the same process manages
+				s.W.Crash(master)
+				time.Sleep(40 * time.Second)
+				s.W.Restart(master)
+				time.Sleep(110 * time.Second)
+			}
+			for i := 0; i < 9; i++ {
+				time.Sleep(5 * time.Second)
+				g.sample(s)
+			}
+			sc.Cover("loops:" + sp.Mutation)
+			sc.Coverf("loops|%s|n=%d|casc=%v|mgrsw=%v", sp.Mutation, sp.N, sp.Casc, sp.MgrSw)
 		case "dangling":
 			s.Start()
 			time.Sleep(22 * time.Second)
@@ -396,6 +465,9 @@ func init() {
 	register(&Prop{ID: "C20", Units: c20Units, Run: c20Run, RaceUnits: c20RaceUnits,
 		Floor: func(string) []string {
 			f := []string{"soak", "first-use"}
+			for _, l := range c20Loops {
+				f = append(f, "loops:"+l)
+			}
 			for _, m := range c20Mutations {
 				f = append(f, "mutation:"+m)
 			}
@@ -404,5 +476,5 @@ func init() {
 			}
 			return f
 		},
-		Rule: "families: (dangling) every coordination-tree mutation of a list of 31 (unregistered master / replica / stream_from, unknown hosts, malformed or empty values of every key mysync reads) applied to a running cluster in one of 8 daemon/server states, then 300 iterations; (soak) random crashes, isolations, coordination cuts and outages, daemon kills and switch requests for 40-80 steps; (switch-wreck) the C06/C07/C09 generators' half-done switchovers with dying managers and failing statements and daemon restarts during maintenance and coordination outages; (first-use) servers becoming reachable just before coinciding ticks with delayed version/uuid queries; a share of all units and all first-use units run under the race detector; oracles: child death with a mysync frame = crash, goroutine/connection counts over the run + goroutines alive at bubble tear-down = leak, race reports de-duplicated by outermost mysync functions; distinct by (family, mutation, state, shape)"})
+		Rule: "families: (dangling) every coordination-tree mutation of a list of 31 (unregistered master / replica / stream_from, unknown hosts, malformed or empty values of every key mysync reads) applied to a running cluster in one of 8 daemon/server states, then 300 iterations; (soak) random crashes, isolations, coordination cuts and outages, daemon kills and switch requests for 40-80 steps; (switch-wreck) the C06/C07/C09 generators' half-done switchovers with dying managers and failing statements and daemon restarts during maintenance and coordination outages; (first-use) servers becoming reachable just before coinciding ticks with delayed version/uuid queries; (loops) one process holds the manager lock while its own host is marked for recovery (as master, as replica with repeated marks, after failing over its own host, with stuck commits), so that all of its loops are in their non-trivial branches at once; a share of all units and all first-use and loops units run under the race detector; oracles: child death with a mysync frame = crash, goroutine/connection counts over the run + goroutines alive at bubble tear-down = leak, race reports de-duplicated by outermost mysync functions; distinct by (family, mutation, state, shape)"})
 }
